@@ -126,17 +126,17 @@ theorem iunifies_shape {g h : Term} (hg : Shape g) (hh : Shape h)
 
 /-! ### the variables of a compiled clause -/
 
-theorem _root_.PrologVerif.Activation.BodySem.varsIn {tbl : List Nat} {ops : List Op} {gs : List Rep} (h : BodySem tbl ops gs)
-    (hcut : ∀ g ∈ gs, g ≠ .atom "!") : ∀ g ∈ gs, ∀ v, (goalTerm g).hasVar v = true → v ∈ tbl := by
+theorem _root_.PrologVerif.Activation.BodySem.varsIn {tbl : List Nat} {ops : List Op} {gs : List Rep} (h : BodySem tbl ops gs) :
+    ∀ g ∈ gs, ∀ v, (goalTerm g).hasVar v = true → v ∈ tbl := by
   induction h with
   | nil => intro g hg; simp at hg
   | @cons seg ops g0 gs hg0 _ ih =>
     intro g hg v hv
     rcases List.mem_cons.1 hg with rfl | hg
     · rcases hg0 with ⟨hc, _⟩ | ⟨_, hcs⟩
-      · exact absurd hc (hcut _ (by simp))
+      · subst hc; simp [goalTerm, Rep.abs, Term.hasVar] at hv
       · exact hcs.1 _ (by simp) v hv
-    · exact ih (fun g' hg' => hcut g' (by simp [hg'])) g hg v hv
+    · exact ih g hg v hv
 
 theorem conjuncts_vars {b t : Term} {x : Nat} (ht : t ∈ SLD.conjuncts b) (hx : t.hasVar x = true) :
     b.hasVar x = true := by
@@ -154,7 +154,7 @@ theorem conjuncts_vars {b t : Term} {x : Nat} (ht : t ∈ SLD.conjuncts b) (hx :
 theorem CRel.info {cl : Clause} {h b : Term} (hr : CRel cl h b) :
     ∃ hargs pre bops gs, HeadLayout h cl hargs ∧
       cl.code = headCode hargs {} ++ (pre ++ (bops ++ [Op.exit])) ∧ (pre = [] ∨ pre = [Op.enter]) ∧
-      BodySem cl.vars bops gs ∧ (∀ g ∈ gs, g ≠ .atom "!" ∧ hornGoal (goalTerm g) = true) ∧
+      BodySem cl.vars bops gs ∧ (∀ g ∈ gs, g = .atom "!" ∨ hornGoal (goalTerm g) = true) ∧
       (SLD.conjuncts b = gs.map goalTerm ∨ (gs = [] ∧ b = .atom "true")) := by
   cases hr with
   | rule hl hcode hsem hgs hg =>
@@ -164,19 +164,29 @@ theorem CRel.info {cl : Clause} {h b : Term} (hr : CRel cl h b) :
 
 /-! ### goal lists -/
 
-/-- the pending goals `G` of the VM and the resolvent `R` of the reference -/
-def GRel (σ : Subst) (π : Nat → Nat) (D : Nat → Prop) (G : List Term) (R : List SLD.Frame) : Prop :=
-  Forall2 (fun g fr => InD D g ∧ ∃ l, fr = SLD.Frame.goal (img σ π g) l) G R
+/-- the level map of the current path: frame ids (innermost first) with the depth of the predicate
+    call they stand for on the reference side (`none`: a frame the reference has no level for) -/
+abbrev Lv := List (Nat × Option Nat)
 
-theorem GRel.step {σ σ' : Subst} {π π' : Nat → Nat} {D D' : Nat → Prop} {G : List Term} {R : List SLD.Frame}
-    (h : GRel σ π D G R) (hD : ∀ v, D v → D' v) (θ : List (Nat × Term))
+/-- the level of a frame id -/
+def Lv.lev (lv : Lv) (c : Nat) : Option Nat := (lv.lookup c).getD none
+
+/-- the pending goals `G` of the VM and the resolvent `R` of the reference; the level of a cut goal
+    is the level of its cut parent -/
+def GRel (lv : Lv) (σ : Subst) (π : Nat → Nat) (D : Nat → Prop) (G : List (Term × Nat)) (R : List SLD.Frame) : Prop :=
+  Forall2 (fun g fr => InD D g.1 ∧ ∃ l, fr = SLD.Frame.goal (img σ π g.1) l ∧
+    (g.1 = .atom "!" → lv.lev g.2 = some l)) G R
+
+theorem GRel.step {lv : Lv} {σ σ' : Subst} {π π' : Nat → Nat} {D D' : Nat → Prop} {G : List (Term × Nat)}
+    {R : List SLD.Frame}
+    (h : GRel lv σ π D G R) (hD : ∀ v, D v → D' v) (θ : List (Nat × Term))
     (heq : ∀ t, InD D t → img σ' π' t = (img σ π t).subst (substOf θ)) :
-    GRel σ' π' D' G (R.map (SLD.Frame.subst θ)) := by
+    GRel lv σ' π' D' G (R.map (SLD.Frame.subst θ)) := by
   induction h with
   | nil => exact .nil
   | cons hd _ ih =>
-    obtain ⟨hg, l, rfl⟩ := hd
-    refine .cons ⟨fun v hv => hD v (hg v hv), l, ?_⟩ ih
+    obtain ⟨hg, l, rfl, hl⟩ := hd
+    refine .cons ⟨fun v hv => hD v (hg v hv), l, ?_, hl⟩ ih
     simp only [SLD.Frame.subst, applySubst_eq, heq _ hg]
 
 /-! ### the activation -/
@@ -228,7 +238,7 @@ theorem thunk_head' {tmpl : Term} {max : Nat} {cl : Clause} {h b : Term} (hcr : 
             (∀ v, D v → D' v) ∧
             (∀ t, InD D t → img σ' π' t = (img σ π t).subst τ2) ∧
             (∀ G, ContGoals tmpl max K G → ContGoals tmpl max K1 (G1 ++ G)) ∧
-            Forall2 (fun g1 bg => InD D' g1 ∧ img σ' π' g1 = (bg.rename κ).subst τ2) G1 Bs ∧
+            Forall2 (fun g1 bg => InD D' g1.1 ∧ g1.2 = id ∧ img σ' π' g1.1 = (bg.rename κ).subst τ2) G1 Bs ∧
             (∀ v, D' v → D v ∨ ∃ x, (h.hasVar x = true ∨ b.hasVar x = true) ∧
               img σ' π' (.var v) = ((Term.var x).rename κ).subst τ2)) := by
   obtain ⟨hargs, pre, bops, gs, hl, hcode, hpre, hsem, hgoals, hbody⟩ := hcr.info
@@ -245,7 +255,7 @@ theorem thunk_head' {tmpl : Term} {max : Nat} {cl : Clause} {h b : Term} (hcr : 
         exact hl.pre.subset ((headCode_spec2 hargs {} hl.wf).1 a ha x hax)
       · exact Or.inl hx
     · constructor
-      · exact hsem.varsIn (fun g' hg' => (hgoals g' hg').1) g0 hg0 x hx
+      · exact hsem.varsIn g0 hg0 x hx
       · rcases hbody with hb | ⟨hb, _⟩
         · have : goalTerm g0 ∈ SLD.conjuncts b := by rw [hb]; exact List.mem_map_of_mem hg0
           exact Or.inr (conjuncts_vars this hx)
@@ -303,7 +313,7 @@ theorem thunk_head' {tmpl : Term} {max : Nat} {cl : Clause} {h b : Term} (hcr : 
       obtain ⟨σ', π', hσ', hinj, heq⟩ := bridge_ok' hsim1.mg (Nat.le_refl _) (fun v hv => (hsim1.dlt v hv).2)
         hgD' hhD hsim1.inj hstep' hchain τ2 hτ'.sound hτ'.general
       have heq' : ∀ t, InD D' t → img σ' π' t = (img σ π₁ t).subst τ2 := heq
-      refine ⟨σ', π', D', gs.map (fun g0 => (goalTerm g0).rename ρ),
+      refine ⟨σ', π', D', gs.map (fun g0 => ((goalTerm g0).rename ρ, id)),
         ⟨hσ', hchain.chainOK hsim1.chain, by have := hsim.pos; omega,
           fun v hv => ⟨(hsim1.dlt v hv).1, Nat.lt_of_lt_of_le (hsim1.dlt v hv).2 hchain.le⟩, hinj, ?_,
           hsim1.tmplD⟩, hDD', ?_, ?_, ?_, ?_⟩
@@ -330,7 +340,7 @@ theorem thunk_head' {tmpl : Term} {max : Nat} {cl : Clause} {h b : Term} (hcr : 
         intro g0 hg0
         have hgV : ∀ x, (goalTerm g0).hasVar x = true → V x := fun x hx => Or.inr ⟨g0, hg0, hx⟩
         obtain ⟨h1, h2⟩ := himg_new (goalTerm g0) hgV
-        exact ⟨h2, by rw [heq' _ h2, h1]⟩
+        exact ⟨h2, rfl, by rw [heq' _ h2, h1]⟩
 
 theorem maxVar_rule (h b : Term) : SLD.maxVar (SLD.rule h b) = Nat.max (SLD.maxVar h) (SLD.maxVar b) := by
   simp [SLD.rule, SLD.mk2, SLD.maxVar, SLD.maxVarArgs]
@@ -352,7 +362,8 @@ theorem thunk_head {tmpl : Term} {max : Nat} {cl : Clause} {h b : Term} (hcr : C
             (∀ v, D v → D' v) ∧
             (∀ t, InD D t → img σ' π' t = (img σ π t).subst (substOf θ2)) ∧
             (∀ G, ContGoals tmpl max K G → ContGoals tmpl max K1 (G1 ++ G)) ∧
-            Forall2 (fun g1 bg => InD D' g1 ∧ img σ' π' g1 = (SLD.shift nv bg).subst (substOf θ2)) G1 Bs) := by
+            Forall2 (fun g1 bg => InD D' g1.1 ∧ g1.2 = id ∧
+              img σ' π' g1.1 = (SLD.shift nv bg).subst (substOf θ2)) G1 Bs) := by
   have hlt : ∀ x, (h.hasVar x = true ∨ b.hasVar x = true) → x < SLD.maxVar (SLD.rule h b) := by
     intro x hx
     rw [maxVar_rule]
